@@ -278,11 +278,6 @@ func (o *oracle) expect(toks []string) string {
 		}
 		a, b := o.parse(toks[2]), o.parse(toks[3])
 		ks := o.sorted()
-		if o.kind[0] == 'f' {
-			if isNaNKey(a) || isNaNKey(b) || (isZeroF(a) && isZeroF(b) && a.txt != b.txt) {
-				return "*"
-			}
-		}
 		if o.kind == "alpha" && len(b.b) == 0 {
 			if len(ks) == 0 {
 				return fmtSeq(tag, nil, parseStops(toks[4]))
